@@ -5,6 +5,7 @@ CONSTANTS
   VarLong = 4
   Padding = TRUE
   RelFpuOK = TRUE
+  SelfKinds = {}
   Labels = {"la", "lb"}
   MaxItems = 4
   Fills = {1, 126}
